@@ -8,11 +8,18 @@ package types
 
 // ---- assumed contracts of the keeper interfaces bandtss depends on -------------------------------------
 // bank: a successful transfer moves the bank state by exactly that transfer; a failed one changes nothing
+// reward bookkeeping ghosts (per denom, in 10^-18 units; same ghosts as in the oracle module's contracts): what was
+// moved INTO the distribution module account, and what was handed out of it (community pool, validator rewards,
+// direct payouts from the distribution account)
+//@ ghost DistrReceived map[string]int
+//@ ghost DistrAllocated map[string]int
 //@ func (k BankKeeper) SendCoinsFromModuleToAccount
 //@ trusted
-//@ modifies Bank
+//@ modifies Bank, DistrAllocated
 //@ ensures err == nil ==> Bank == bankM2A(old(Bank), senderModule, recipientAddr, amt)
 //@ ensures err != nil ==> Bank == old(Bank)
+//@ ensures (err != nil || senderModule != "distribution") ==> DistrAllocated == old(DistrAllocated)
+//@ ensures err == nil && senderModule == "distribution" ==> (forall d Str :: DistrAllocated[d] == old(DistrAllocated)[d] + ext("Coins.AmountOf", amt, d) * 1000000000000000000)
 //@ func (k BankKeeper) SendCoinsFromAccountToModule
 //@ trusted
 //@ modifies Bank
@@ -20,8 +27,10 @@ package types
 //@ ensures err != nil ==> Bank == old(Bank)
 //@ func (k BankKeeper) SendCoinsFromModuleToModule
 //@ trusted
-//@ modifies Bank
+//@ modifies Bank, DistrReceived
 //@ ensures err != nil ==> Bank == old(Bank)
+//@ ensures (err != nil || recipientModule != "distribution") ==> DistrReceived == old(DistrReceived)
+//@ ensures err == nil && recipientModule == "distribution" ==> (forall d Str :: DistrReceived[d] == old(DistrReceived)[d] + ext("Coins.AmountOf", amt, d) * 1000000000000000000)
 //@ func (k BankKeeper) GetAllBalances
 //@ trusted
 
@@ -68,11 +77,15 @@ package types
 //@ trusted
 //@ func (k AccountKeeper) GetModuleAddress
 //@ trusted
+// the community tax is a fraction in [0, 1] (distribution module parameter validation)
 //@ func (k DistrKeeper) GetCommunityTax
 //@ trusted
+//@ ensures err == nil ==> 0 <= result && result <= 1000000000000000000
 //@ func (k DistrKeeper) FundCommunityPool
 //@ trusted
-//@ modifies Bank, Other
+//@ modifies Bank, Other, DistrAllocated
+//@ ensures err != nil ==> DistrAllocated == old(DistrAllocated)
+//@ ensures err == nil ==> (forall d Str :: DistrAllocated[d] == old(DistrAllocated)[d] + ext("Coins.AmountOf", amount, d) * 1000000000000000000)
 
 // protobuf Any unpacking of the requested content: abstract
 //@ func (m *MsgRequestSignature) GetContent
